@@ -118,6 +118,10 @@ def inject(rng):
         a.update(b)
         return "parse_cond", a, "several keys"
     if k == 18:
+        if rng.random() < 0.5:
+            a, b = rng.choice([("length", "length"), ("type", "dtype"), ("len", "length"), ("map_keys", "map_keys"), ("first", "first"),
+                               ("dtype", "type"), ("last", "first"), ("length", "map_keys"), ("single", "single")])
+            return "parse_path", {"path." + a + "." + b: ["a"]}, "two suffixes of one kind"
         return "parse_path", {"path": ["a"], "path.length": ["b"]}, "several keys"
     if k == 19:
         sp = {"path": ["a"], "condition": leaf()}
